@@ -8,6 +8,7 @@ import time
 
 import numpy as np
 
+import c0567_layouts as layouts
 from vp import common
 from vp.common import cz, cn, cb, clist
 
@@ -37,17 +38,21 @@ def run_impl(case, sets=None, alpha=None):
     from valjean.gavroche.stat_tests.chi2 import TestChi2
     shape = tuple(case['shape'])
 
-    def arr(flat):
+    lay = case.get('layouts') or []          # memory layouts [values, errors] per dataset
+
+    def arr(flat, kind):
         vals = [unbits(b) for b in flat]
         if not shape:
             return np.float64(vals[0])
-        return np.array(vals, dtype=float).reshape(shape)
+        return layouts.apply(np.array(vals, dtype=float).reshape(shape), kind)
     try:
         with np.errstate(all='ignore'):
             import warnings
             with warnings.catch_warnings():
                 warnings.simplefilter('ignore')
-                dsets = [Dataset(arr(v), arr(e)) for v, e in (sets if sets is not None else case['datasets'])]
+                dsets = [Dataset(arr(v, (lay[k] if k < len(lay) else 'CC')[0]),
+                                 arr(e, (lay[k] if k < len(lay) else 'CC')[1]))
+                         for k, (v, e) in enumerate(sets if sets is not None else case['datasets'])]
                 test = TestChi2(*dsets, name='chi2', alpha=case['alpha'] if alpha is None else alpha,
                                 ignore_empty=case['ignore_empty'])
                 res = test.evaluate()
@@ -77,15 +82,30 @@ def expected(case, d):
         else:
             used = np.ones(len(v1), dtype=bool)
         dlt = v1 - v2
-        pull = dlt / np.sqrt(e1 * e1 + e2 * e2)
-        terms = (pull * pull)[used]
+        sums = []
+        for quad in (np.sqrt(e1 * e1 + e2 * e2),
+                     np.where(np.isnan(e1) | np.isnan(e2), NAN, np.hypot(e1, e2))):   # no spurious under/overflow
+            pull = dlt / quad
+            terms = (pull * pull)[used]
+            if len(terms) and not np.isfinite(terms).all():
+                sums.append(float(np.sum(terms)))
+            else:
+                sums.append(math.fsum(terms))
         alt = (dlt * dlt / (e1 * e1 + e2 * e2))[used]
-    if len(terms) and (np.isnan(terms).any() or np.isinf(terms).any()):
-        with np.errstate(all='ignore'):
-            chi2 = float(np.sum(terms))
-    else:
-        chi2 = math.fsum(terms)
-    return chi2, int(used.sum()), (math.fsum(alt) if len(alt) and np.isfinite(alt).all() else None)
+        mags = np.abs(np.concatenate([e1, e2, dlt]))
+        mags = mags[(mags > 0) & np.isfinite(mags)]
+        plain = bool(len(mags) == 0 or (mags.min() > 1e-150 and mags.max() < 1e150))   # no square under/overflows
+    return (sums[0], sums[1], int(used.sum()),
+            (math.fsum(alt) if plain and len(alt) and np.isfinite(alt).all() else None))
+
+
+def model_comparable(case, nd):
+    '''sqrt(e1^2+e2^2) and an overflow-free quadratic sum give the same statistic'''
+    for d in range(nd):
+        a, b, _, _ = expected(case, d)
+        if not rel_close(a, b, 1e-13):
+            return False
+    return True
 
 
 def expected_p(chi2, ndf):
@@ -120,7 +140,9 @@ def oracle(ctx, case, obs):
     for d in range(len(obs['chi2'])):
         chi2 = unbits(obs['chi2'][d])
         p = unbits(obs['p'][d])
-        chi2_exp, ndf_exp, alt = expected(case, d)
+        chi2_exp, chi2_hyp, ndf_exp, alt = expected(case, d)
+        if not rel_close(chi2, chi2_exp, 1e-11) and rel_close(chi2, chi2_hyp, 1e-11):
+            chi2_exp = chi2_hyp           # a quadratic sum without spurious under/overflow is as good
         if obs['ndf'][d] != ndf_exp:
             ctx.oracle_failure(f'dataset {d}: ndf = {obs["ndf"][d]}, number of used bins = {ndf_exp}' + tag,
                                case, key='ndf')
@@ -194,6 +216,16 @@ def gen_case(rng, quick):
     ie = rng.random() < 0.55
     special = (not ie) and rng.random() < 0.3      # NaN / inf only when the option is off
     scale = 10.0 ** rng.randint(-40, 40) if rng.random() < 0.2 else 1.0
+    escale = None                       # errors on another scale than the values
+    r = rng.random()
+    if r < 0.07:
+        scale = 10.0 ** rng.randint(-200, -160)       # squares underflow
+    elif r < 0.10:
+        scale = 10.0 ** rng.randint(-321, -308)       # subnormal
+    elif r < 0.17:
+        scale = 10.0 ** rng.randint(150, 304)         # squares overflow
+    elif r < 0.22:
+        escale = 10.0 ** rng.choice([rng.randint(-320, -160), rng.randint(150, 300)])
     sig = rng.choice([0.5, 1.0, 1.0, 1.5, 2.5])
     zero_rate = rng.choice([0.0, 0.1, 0.3, 0.6, 1.0]) if rng.random() < 0.7 else 0.0
 
@@ -205,13 +237,13 @@ def gen_case(rng, quick):
             return 0.0
         if special and q > 0.95:
             return rng.choice([NAN, INF])
-        return round(rng.uniform(0.05, 1.0), 3) * scale
+        return round(rng.uniform(0.05, 1.0), 3) * (escale or scale)
 
     def val(mu):
         if special and rng.random() < 0.06:
             return rng.choice([NAN, INF, -INF])
         return mu
-    mus = [round(rng.uniform(-10, 10), 2) * scale for _ in range(size)]
+    mus = [round(rng.uniform(-1, 1), 3) * 10 * scale for _ in range(size)]
     ref_e = [err() for _ in range(size)]
     ref_v = [val(mu) for mu in mus]
     sets = [[ref_v, ref_e]]
@@ -224,11 +256,45 @@ def gen_case(rng, quick):
             else:
                 a = ref_e[i] if math.isfinite(ref_e[i]) else scale
                 b = es[i] if math.isfinite(es[i]) else scale
-                vs.append(val(mus[i] + rng.gauss(0, sig) * (math.sqrt(a * a + b * b) or scale)))
+                vs.append(val(mus[i] + rng.gauss(0, sig) * (math.hypot(a, b) or scale)))
         sets.append([vs, es])
+    const_err = rng.random() < 0.08
+    if const_err:
+        for vs, es in sets:
+            es[:] = [es[0]] * size
     alpha = rng.choice(ALPHAS) if rng.random() < 0.8 else round(rng.uniform(0.0005, 0.999), 4)
-    return {'shape': shape, 'alpha': alpha, 'ignore_empty': ie,
+    lay = [[layouts.pick(rng, shape), 'B' if const_err and rng.random() < 0.7 else layouts.pick(rng, shape)]
+           for _ in sets]
+    if rng.random() < 0.3:              # every array of the case in the same layout
+        kind = layouts.pick(rng, shape, plain=0.0)
+        lay = [[kind, kind] for _ in sets]
+    return {'shape': shape, 'alpha': alpha, 'ignore_empty': ie, 'layouts': lay,
             'datasets': [[[bits(x) for x in v], [bits(x) for x in e]] for v, e in sets]}
+
+
+def special_pair_cases():
+    '''option off: three ordinary bins + one bin with every combination of (inf, nan, 0, finite)
+    errors and representative value pairs across the two sides'''
+    out = []
+    for e1 in (INF, NAN, 0.0, 0.5):
+        for e2 in (INF, NAN, 0.0, 0.5):
+            for v1, v2 in ((1.5, 1.5), (1.5, 0.0), (INF, 1.5), (NAN, 1.5), (INF, INF), (1.5, NAN)):
+                out.append(mk([2, 2], 0.05, False, ([5.2, 5.3, v1, 5.4], [0.2, 0.25, e1, 0.2]),
+                              ([5.1, 5.6, v2, 5.3], [0.1, 0.3, e2, 0.4])))
+    return out
+
+
+def magnitude_cases():
+    '''tiny / subnormal / huge errors and differences with both option values: a bin is used
+    as soon as one of its errors is non-zero, whatever its square does'''
+    out = []
+    for ie in (True, False):
+        for tiny in (1e-170, 1e-200, 3e-310, 5e-324, 1e160, 1e300):
+            out.append(mk([4], 0.05, ie, ([1., 2., 3., 4.], [tiny, 0., 0.1, 0.]),
+                          ([1., 2., 3.1, 4.], [0., tiny, 0.1, 0.])))
+            out.append(mk([3], 0.05, ie, ([tiny, 2 * tiny, 0.], [tiny, tiny / 2, 0.]),
+                          ([2 * tiny, tiny, 0.], [tiny, 0., 0.])))
+    return out
 
 
 def mk(shape, alpha, ie, *sets):
@@ -287,6 +353,15 @@ def coq_case(case, obs):
 def classify(ctx, case, obs):
     ctx.count('ndim_%d' % len(case['shape']))
     ctx.count('ignore_empty_%s' % case['ignore_empty'])
+    for kinds in case.get('layouts') or []:
+        for k in kinds:
+            ctx.count('layout_' + k)
+    mags = [abs(unbits(b)) for v, e in case['datasets'] for b in v + e]
+    mags = [x for x in mags if x > 0 and math.isfinite(x)]
+    if mags and min(mags) < 1e-150:
+        ctx.count('cases_with_tiny_magnitudes')
+    if mags and max(mags) > 1e150:
+        ctx.count('cases_with_huge_magnitudes')
     ctx.count('compared_datasets', len(case['datasets']) - 1)
     size = len(case['datasets'][0][0])
     ctx.count('bins', size * (len(case['datasets']) - 1))
@@ -309,11 +384,17 @@ def run(ctx):
     ctx.rule = ('corpus (docstring-like examples, all bins empty, one-sided zero errors, NaN/inf, scalars) + random '
                 'comparisons: scalar to 3-d, 1..3 compared datasets, both option values, zero-error patterns at rates '
                 '0..100% (correlated between the two datasets so that empty bins occur), NaN/inf only with the option '
-                'off, magnitudes 1e-40..1e40 + boundary cases alpha == p-value exactly (and its float neighbours); each '
+                'off, magnitudes 1e-321..1e304 (tiny, subnormal and huge errors/differences whose squares under/overflow, 22% of the cases), every combination of inf/NaN/0/finite errors across the two sides, arrays handed over in 7 memory layouts + boundary cases alpha == p-value exactly (and its float neighbours); each '
                 'case re-run with permuted bins; non-trivial = more than one bin, ndf > 0, and bins left out when the '
                 'option is on')
     cases = corpus()
     ctx.count('corpus', len(cases))
+    extra = special_pair_cases()
+    ctx.count('special_pair_cases', len(extra))
+    cases += extra
+    extra = magnitude_cases()
+    ctx.count('magnitude_corpus_cases', len(extra))
+    cases += extra
     nrand = 650 if quick else 16000
     rand = [gen_case(ctx.rng, quick) for _ in range(nrand)]
     bnd = boundary_cases(ctx.rng, cases + rand[:60 if quick else 1500])
@@ -331,6 +412,8 @@ def run(ctx):
             ctx.count('raise_' + obs['raise'])
         elif 'malformed' in obs:
             ctx.count('malformed')
+        elif not model_comparable(case, len(obs['chi2'])):
+            ctx.count('extreme_scale_not_sent_to_model')   # sqrt(e1^2+e2^2) vs overflow-free sum differ
         else:
             done.append((case, obs))
     ctx.extra['impl_and_oracle_s'] = round(time.time() - t_start, 1)
